@@ -104,6 +104,13 @@ struct VM {
         if (outs[i].first == o) { sc[n] = outs[i].second; return true; }
       die("bind: unknown out " + o);
     }
+    if (c == "bindopt") {  // like bind, but silently skips when the out does not exist on this path
+      std::string n = next(), o = next();
+      for (size_t i = outs.size(); i-- > 0;)
+        if (outs[i].first == o) { sc[n] = outs[i].second; return true; }
+      sc.erase(n);
+      return true;
+    }
     if (c == "decisions") {
 #ifndef SYMX_NATIVE
       while (more()) symx::ctx().forced.push_back(std::strtol(next().c_str(), nullptr, 10));
@@ -221,6 +228,34 @@ template <class PP> struct PPCmds {
       PP &p = get(vm.next()); int k = vm.nextInt(); std::string pre = vm.next();
       std::vector<R> ts = vm.nextCountedVec();
       auto res = (c == "pp.batch") ? p.evaluate(ts, k) : p.evaluate(ts, static_cast<Deriv>(k));
+      vm.iout(pre + ".n", (long)res.size());
+      for (size_t i = 0; i < res.size(); i++) outV(pre + "." + std::to_string(i), res[i]);
+      return true;
+    }
+    if (c == "pp.norm") {  // pp.norm NAME v_0 .. v_{DIM-1} : Eigen's own norm() of a DIM-vector (same reduction order as the library's calls)
+      std::string n = vm.next(); Vec v; bool ok = true;
+      for (int d = 0; d < DIM; d++) { std::string tkn = vm.next(); bool found = false;
+        for (size_t j = vm.outs.size(); j-- > 0;) if (vm.outs[j].first == tkn) { v(d) = vm.outs[j].second; found = true; break; }
+        if (!found) ok = false; }
+      if (ok) { vm.sc[n] = v.norm(); vm.out(n, vm.sc[n]); }
+      return true;
+    }
+    if (c == "pp.evalopt") {  // evaluate only if the time scalar is bound (bindopt)
+      PP &p = get(vm.next()); std::string tn = vm.next(); int k = vm.nextInt(); std::string pre = vm.next();
+      if (vm.sc.count(tn)) outV(pre, p.evaluate(vm.sc[tn], k));
+      return true;
+    }
+    if (c == "pp.batchseq") {  // batch evaluation over an earlier generated sequence (outs <SEQ>.0 .. <SEQ>.n-1)
+      PP &p = get(vm.next()); int k = vm.nextInt(); std::string pre = vm.next(); std::string seq = vm.next();
+      std::vector<R> ts;
+      for (int i = 0;; i++) {
+        std::string key = seq + "." + std::to_string(i);
+        bool found = false;
+        for (size_t j = vm.outs.size(); j-- > 0;)
+          if (vm.outs[j].first == key) { ts.push_back(vm.outs[j].second); found = true; break; }
+        if (!found) break;
+      }
+      auto res = p.evaluate(ts, k);
       vm.iout(pre + ".n", (long)res.size());
       for (size_t i = 0; i < res.size(); i++) outV(pre + "." + std::to_string(i), res[i]);
       return true;
